@@ -105,6 +105,7 @@ pub fn configs(tier: Tier) -> Vec<Box<dyn Config>> {
         v.push(seeded_plan(Plan::Last, tier, true, 1));
         v.push(seeded_plan(Plan::Last, tier, false, 2));
         v.push(seeded_plan(Plan::Tail, tier, false, 2));
+        v.push(seeded_plan(Plan::Seq, tier, true, 1));
         if !sse2 {
             v.push(closed_core(Plan::Last, 9, tier, false));
             v.push(closed_core(Plan::Max, 12, tier, false));
